@@ -489,13 +489,15 @@ func (vt *Model) print(seq ansi.Print) {
 		vt.activeScreen[rw][col+i].Style = vt.cursor.Style
 	}
 
-	switch {
-	case !vt.mode.decawm && vt.cursor.col+column(w) > vt.margin.right:
-	default:
-		vt.cursor.col += column(w)
-	}
-	if vt.cursor.col >= vt.margin.right+1 && vt.mode.decawm {
-		vt.lastCol = true
+	vt.cursor.col += column(w)
+	if vt.cursor.col > vt.margin.right {
+		// The cursor never leaves the screen: it stays on the last
+		// column and, in wrap mode, the wrap is deferred until the next
+		// character is printed
+		vt.cursor.col = vt.margin.right
+		if vt.mode.decawm {
+			vt.lastCol = true
+		}
 	}
 }
 
